@@ -489,7 +489,7 @@ impl Kernel {
             procs: BTreeMap::new(),
             graveyard: vec![],
             pid_lo: 100,
-            pid_hi: 100 + pid_span.max(4),
+            pid_hi: 100 + pid_span.max(2),
             next_pid: 100,
             fs: BTreeMap::new(),
             programs: vec![],
